@@ -175,6 +175,27 @@ void probe_absent(Tree &t, std::map<uint64_t, Ref> &ref, uint64_t k) {
 	}
 }
 
+// After a call that violates a documented precondition (erase of an absent key, insert of a present key) -- whether it
+// stopped in the assertion hook or not -- nothing may have changed: every key of the reference is still found at its
+// address with its value, no neighbour appeared, and iteration yields exactly the reference in ascending key order.
+void assert_path_recheck(Tree &t, std::map<uint64_t, Ref> &ref, uint64_t k, const char *what) {
+	for(auto &kv : ref) {
+		RV *p = t.find(kv.first);
+		if(p != kv.second.p || (p && p->get() != kv.second.v)) {
+			vh::oracle("assert-path-damage", "%s(%#llx) violates its precondition; afterwards present key %#llx is %s",
+				what, (unsigned long long)k, (unsigned long long)kv.first, p ? "found at another address / with another value" : "no longer found");
+			return;
+		}
+	}
+	if(t.find(k) && !ref.count(k)) { vh::oracle("assert-path-damage", "%s(%#llx): the absent key is found afterwards", what, (unsigned long long)k); return; }
+	std::vector<RV *> seen, want;
+	size_t n = 0;
+	for(auto i = t.begin(); i != t.end(); ++i) { seen.push_back(&*i); if(++n > ref.size() + 8) break; }
+	for(auto &kv : ref) want.push_back(kv.second.p);
+	if(seen != want) vh::oracle("assert-path-damage", "%s(%#llx) violates its precondition; afterwards iteration yields %zu values, %zu keys are present (or order/contents differ)",
+		what, (unsigned long long)k, seen.size(), want.size());
+}
+
 void body(const vh::Lines &ls) {
 	g_events.clear(); g_nodes.clear(); g_node_id.clear(); g_shown.clear(); g_quiet = false;
 	std::map<uint64_t, Ref> ref;
@@ -200,6 +221,7 @@ void body(const vh::Lines &ls) {
 			const std::string &o = w[0];
 			opno++;
 			bool expect_assert = false;
+			uint64_t bad_key = 0; const char *bad_what = "";
 			try {
 				if(o == "f") {
 					uint64_t k = vh::u64(w[1]);
@@ -222,9 +244,10 @@ void body(const vh::Lines &ls) {
 						p = r.template get<0>(); ins = r.template get<1>();
 						printf("o %s %d\n", addr(p).c_str(), ins ? 1 : 0);
 					} else {
-						expect_assert = had;
+						expect_assert = had; bad_key = k; bad_what = "insert";
 						p = t.insert(k, v); ins = true;
-						if(had) vh::oracle("refmap", "insert(%#llx) of a present key did not stop in FRG_ASSERT", (unsigned long long)k);
+						if(had) { vh::oracle("refmap", "insert(%#llx) of a present key did not stop in FRG_ASSERT", (unsigned long long)k);
+							assert_path_recheck(t, ref, k, "insert"); }
 						printf("p %s\n", addr(p).c_str());
 					}
 					if(had) {
@@ -254,11 +277,12 @@ void body(const vh::Lines &ls) {
 				} else if(o == "e") {
 					uint64_t k = vh::u64(w[1]);
 					auto it = ref.find(k);
-					expect_assert = it == ref.end();
+					expect_assert = it == ref.end(); bad_key = k; bad_what = "erase";
 					RV *p = t.find(k);
 					if(!expect_assert && p != it->second.p) vh::oracle("refmap", "find(%#llx) before erase: wrong address", (unsigned long long)k);
 					t.erase(k);
-					if(expect_assert) vh::oracle("refmap", "erase(%#llx) of an absent key did not stop in FRG_ASSERT", (unsigned long long)k);
+					if(expect_assert) { vh::oracle("refmap", "erase(%#llx) of an absent key did not stop in FRG_ASSERT", (unsigned long long)k);
+						assert_path_recheck(t, ref, k, "erase"); }
 					if(t.find(k)) vh::oracle("refmap", "find(%#llx) still finds the key after erase", (unsigned long long)k);
 					if(p) p->~RV();          // the caller's part of the protocol (after the grace period)
 					if(it != ref.end()) ref.erase(it);
@@ -298,6 +322,7 @@ void body(const vh::Lines &ls) {
 				g_quiet = true;
 				printf("assert\n");
 				if(!expect_assert) vh::oracle("unexpected-assert", "op %zu '%s': %s", opno, line.c_str(), a.where.c_str());
+				else assert_path_recheck(t, ref, bad_key, bad_what);   // the stopped call must not have changed anything
 				stopped = true;
 				break;
 			}
